@@ -2,6 +2,7 @@ package c13
 
 import (
 	"fmt"
+	"os"
 	"runtime/debug"
 	"sort"
 	"strings"
@@ -127,6 +128,9 @@ func prepare(c *conn, ops []cop, hdrBase uint64) []*prepared {
 // root cause as F17); serialising them keeps the race detector usable for what C13 is about (the counter).
 var lookupMu sync.Mutex
 
+// serialiseLookups: -race build and not overridden by VERIF_C13_PARALLEL_LOOKUPS=1.
+var serialiseLookups = raceEnabled && os.Getenv("VERIF_C13_PARALLEL_LOOKUPS") != "1"
+
 func runWorker(c *conn, g int, ops []*prepared, start <-chan struct{}) (recs []crec) {
 	recs = make([]crec, 0, len(ops))
 	cur := -1
@@ -173,11 +177,11 @@ func runWorker(c *conn, g int, ops []*prepared, start <-chan struct{}) (recs []c
 			r := model.MsgCounterType(o.Ref)
 			c.sender.ProcessResponseForMsgCounterReference(&r)
 		case "lookup":
-			if raceEnabled {
+			if serialiseLookups {
 				lookupMu.Lock()
 			}
 			d, err := c.sender.DatagramForMsgCounter(model.MsgCounterType(o.Ref))
-			if raceEnabled {
+			if serialiseLookups {
 				lookupMu.Unlock()
 			}
 			if err == nil {
@@ -295,7 +299,9 @@ func TestSenderConcurrent(t *testing.T) {
 
 func judgeConcurrent(t *rapid.T, c *conn, recs []*crec, kind string, G, total int, shape []string) {
 	sent := c.cap.Drain()
-	desc := func() string { return fmt.Sprintf("\n sender: %s, %d goroutines, %d calls, %d datagrams", kind, G, total, len(sent)) }
+	desc := func() string {
+		return fmt.Sprintf("\n sender: %s, %d goroutines, %d calls, %d datagrams", kind, G, total, len(sent))
+	}
 
 	// 1. every datagram of the connection carries a counter no other datagram carries
 	byCtr := map[uint64]*cwire{}
